@@ -486,6 +486,42 @@ def _is_segment_attr(fi: FuncInfo, value: ast.AST) -> bool:
     return False
 
 
+def d5_text_as_supplied(chk: Check) -> None:
+    """A created leaf holds the supplied value.  wrap_type classifies the
+    value by evaluating its text as a literal; for text that *is* a quoted
+    literal ("'hello world'") the evaluated form differs from what was
+    supplied, so the text branch must wrap the parameter itself."""
+    prog = chk.prog
+    chk.rule("C09-D5", "wrap_type wraps the supplied text itself in its "
+             "text branch (not the literal-evaluated form)", floor=1)
+    fi = prog.func("Nodes.wrap_type")
+    chk.analysed(fi)
+    value = fi.params()[0]
+    found = False
+    for n in walk_local(fi.node):
+        if isinstance(n, ast.If) and src(n.test).replace(" ", "") in (
+                "typisstr", "typ==str") or (
+                isinstance(n, ast.If) and src(n.test).endswith("is str")):
+            found = True
+            wraps = [c for s_ in n.body for c in ast.walk(s_)
+                     if isinstance(c, ast.Call) and
+                     src(c.func).endswith("ScalarString") and c.args]
+            for c in wraps:
+                text = src(c)
+                if src(c.args[0]) == value:
+                    chk.ok("C09-D5", fi, c, text, "the parameter itself")
+                else:
+                    chk.fail("C09-D5", fi, c, text,
+                             "the text node is built from `{}`: a supplied "
+                             "value that is itself a quoted literal loses "
+                             "its quotes, so the created path does not hold "
+                             "the supplied value".format(src(c.args[0])))
+            if not wraps:
+                raise AnalysisError("text wrapper of wrap_type not found")
+    if not found:
+        raise AnalysisError("text branch of wrap_type not found")
+
+
 def run(chk: Check) -> None:
     prog = chk.prog
     cl = read_closure(prog)
@@ -499,6 +535,7 @@ def run(chk: Check) -> None:
     d1_purity(chk, ef, cl)
     d2_guarded_creation(chk, ef)
     d3_tail_only(chk, ef)
+    d5_text_as_supplied(chk)
     from rules.c06 import falsy_rule
     falsy_rule(chk, "C09-D4", "yamlpath/processor.py", 30,
                doc_exprs={"self.data", "<.node>"})
